@@ -51,7 +51,14 @@ def run(ctx):
                 t = s
             else:
                 t = G.gen_ty(rng, spec, d)
-            ps, pt = G.ty_py(s, ops), G.ty_py(t, ops)
+            if k % 4 == 0:
+                # structurally equal sub-terms of s and t as ONE Python object (a type kept in a variable / an alias used on both sides)
+                from props.C02 import ty_py_shared
+                cache = {}
+                ps, pt = ty_py_shared(s, ops, cache), ty_py_shared(t, ops, cache)
+                ctx.count("built_with_shared_subobjects")
+            else:
+                ps, pt = G.ty_py(s, ops), G.ty_py(t, ops)
             for strict in (False, True):
                 o = obs(lambda: ps.is_subtype(pt, strict))
                 nontriv = s != t and s[0] not in (G.TOP, G.BOT) and t[0] not in (G.TOP, G.BOT)
